@@ -156,7 +156,15 @@ def leCodes : List Nat → List Nat → Bool
 
 def keyLe (a b : Key) : Bool := leCodes (a.toList.map Char.toNat) (b.toList.map Char.toNat)
 
-def sortKeys (ks : List Key) : List Key := ks.mergeSort keyLe
+def insertKey (k : Key) : List Key → List Key
+  | [] => [k]
+  | a :: r => if keyLe k a then k :: a :: r else a :: insertKey k r
+
+/-- `sort.Slice` (an insertion sort: the lists are short, and structural recursion keeps the definition evaluable by
+    the kernel; with distinct keys every correct sort gives the same list) -/
+def sortKeys : List Key → List Key
+  | [] => []
+  | k :: r => insertKey k (sortKeys r)
 
 /-- the keys a loader adds to what its parent discovered: value non-nil, `!parent.HasEntry`, predicate -/
 def ownAdded (es : List Ents) (l : Nat) (anc : List Nat) (p : Key → Bool) : List Key :=
